@@ -58,6 +58,12 @@ pub enum Deliver {
     RoleSwap,
     /// an ordinary protocol-chain account calls directly with staked-asset funds
     DirectCall,
+    /// the genuine native account over the configured channel, but paying with another native-chain token
+    /// (it arrives as a different voucher denom): nothing of the staked asset has been received
+    WrongDenom,
+    /// a privileged or otherwise known protocol-chain account (admin, monitor, treasury, ...) calls directly
+    /// with staked-asset funds: no role on the protocol chain substitutes for the ibc-hooks account
+    DirectBy(Who),
 }
 
 #[derive(Serialize, Deserialize, Clone, Copy, Debug, PartialEq, Eq, PartialOrd, Ord)]
@@ -191,6 +197,9 @@ pub enum Op {
     MigrateMid { synthetic_replies: u8 },
     HostileReply { id_sel: u8, ok: bool, data: u8 },
     HostileExec { who: Who, kind: u8 },
+    /// unsolicited deposit (F22): somebody bank-sends tokens to the staking contract without calling it.
+    /// kind 0 = staked asset, 1 = liquid staking token (from the user's holdings), 2 = an unrelated denom
+    Donate { user: u8, kind: u8, #[serde(with = "ustr")] amount: u128 },
 }
 
 #[derive(Serialize, Deserialize, Clone, Copy, Debug, PartialEq, Eq)]
@@ -257,4 +266,8 @@ pub struct Swarm {
     /// whether the token factory accepts zero-amount mints (the real modules refuse them)
     #[serde(default)]
     pub zero_tf_ok: bool,
+    /// list the monitors at instantiation in the reverse of the usual order (the list is a set: no
+    /// behaviour may depend on how it happens to be sorted)
+    #[serde(default)]
+    pub mon_rev: bool,
 }
